@@ -22,7 +22,7 @@ func init() {
 		Explanation: "D1 every effect of NewEpoch is preceded by epochNum > stored epoch (and the Alphabet witness, C03); the epoch key is written with Param(epochNum) and has no other writer except the fresh deploy. D2 NewEpoch writes neither candidate family. " +
 			"D3 publication: 'snapshot_'‖id receives the list built from the scan of 'candidate' filtered by State != Offline, 'p'‖BE4(epochNum)‖key → value for every item of the scan of '2', snapshotBlock = current height, exactly one NewEpoch(epochNum) notification on every path. " +
 			"D4 fan-out: one contract.Call(hash, \"newEpoch\", All, epochNum) per item of the forward scan of 'e' (hash = key without the index byte), loop left only on exhaustion, no exception-catching frame; subscription keys are 'e'‖byte(index)‖hash so scan order is subscription order. " +
-			"D5 SubscribeForNewEpoch writes only after the candidate contract was compared with every stored subscriber and found different (membership loop dominates the write), the index is the number of stored entries. M: the contract's own code faults only without the Alphabet witness or with epochNum ≤ the stored epoch (converse of the epoch guard); snapshot loader. R8: a fixed-width key encoder reverses the padded buffer, not the variable-length source (otherwise 1, 256, 65536 share a key). R10: no stored value the tick divides by can be written as 0 (shared with C08).",
+			"D5 SubscribeForNewEpoch writes only after the candidate contract was compared with every stored subscriber and found different (membership loop dominates the write), the index is the number of stored entries. M: the contract's own code faults only without the Alphabet witness or with epochNum ≤ the stored epoch (converse of the epoch guard); snapshot loader. R8: a fixed-width key encoder reverses the padded buffer, not the variable-length source (otherwise 1, 256, 65536 share a key). R10: no stored value the tick divides by can be written as 0 (shared with C08). R13 catching-frame: no function with a deferred recover that a method of the property's contracts can reach lies outside the who-may-catch table (container.deleteNNSRecords).",
 		NotCovered: "equality of the published maps with a model after arbitrary histories; behaviour of subscribers.",
 		Run:        runC06,
 	})
@@ -32,7 +32,7 @@ func init() {
 		Technique: "term agreement between witnessed key and storage key, must-facts at the stores (state guards), exit-fact equivalences (both representations touched together), dispatch coverage of the state enumeration",
 		Explanation: "D1 the key under which a candidate is stored is the witnessed term (AddPeer: nodeInfo[2:35], AddNode: n.Key, UpdateState: publicKey) and both witnesses are required (C03). D2 the state stored on add is Online. " +
 			"D3 every effect of updateCandidateState happens under state ∈ {Online, Offline, Maintenance} (= the declared enumeration), the default arm cannot return. D4 removeFromNetmap deletes 'candidate'‖k and '2'‖k with the same k on every path; updateNetmapState rewrites every representation that is present (exit facts: absent ∨ rewritten) as the stored record with only State replaced by the requested state, and cannot return normally with no write. " +
-			"D5 exactly one UpdateStateSuccess(key, state) per successful update, AddPeerSuccess/AddNode exactly with their store, no other emitters. D0 every effect of AddPeer/AddPeerIR/AddNode/UpdateState/UpdateStateIR/DeleteNode is gated by the documented witnesses (the gate rule of C03). R6: every normal return of AddPeer/AddPeerIR/AddNode has stored the candidate. R9: no fault of DeleteNode/UpdateState* is decided on the presence of one candidate representation alone. S3: the legacy listing (NetmapCandidates) collects every scanned candidate record (collect-every; the accumulating append has a loop-carried base). The update/remove rules speak about sets of sites (a fast path may repeat a delete, a rewrite, the notification); UpdateStateSuccess is emitted only on behalf of the update/remove entry points.",
+			"D5 exactly one UpdateStateSuccess(key, state) per successful update, AddPeerSuccess/AddNode exactly with their store, no other emitters. D0 every effect of AddPeer/AddPeerIR/AddNode/UpdateState/UpdateStateIR/DeleteNode is gated by the documented witnesses (the gate rule of C03). R6: every normal return of AddPeer/AddPeerIR/AddNode has stored the candidate. R9: no fault of DeleteNode/UpdateState* is decided on the presence of one candidate representation alone. S3: the legacy listing (NetmapCandidates) collects every scanned candidate record (collect-every; the accumulating append has a loop-carried base). The update/remove rules speak about sets of sites (a fast path may repeat a delete, a rewrite, the notification); UpdateStateSuccess is emitted only on behalf of the update/remove entry points. R13 catching-frame: no function with a deferred recover that a method of the property's contracts can reach lies outside the who-may-catch table (container.deleteNNSRecords).",
 		NotCovered: "agreement with a reference model over operation histories; well-formedness of the node BLOB.",
 		Run:        runC07,
 	})
@@ -41,7 +41,7 @@ func init() {
 		Level:     "other",
 		Technique: "divisor-non-zero rule over storage writers (must-facts at every writer of the count key), sibling agreement of the retention bounds read off the loop header as canonical linear terms, must-facts at the ring index computation",
 		Explanation: "D1 NewEpoch and Snapshot compute '% stored snapshotCount'; every writer of that key stores a value established > 0 (so any accepted count leaves the contract able to tick). D2 NewEpoch keeps the per-epoch lists of epochs (e−N, e] (drops e−N under e > N); the drop loop of UpdateSnapshotCount covers exactly [cur−old+1, cur−new] (bounds read off the loop as linear terms over the stored epoch, the stored old count and the parameter). " +
-			"D3 Snapshot establishes 0 ≤ diff < count before indexing the ring; ListNodesEpoch scans 'p'‖BE4(epoch) with the same fixed-width encoder that NewEpoch and dropNetmap use. D4 every normal path of UpdateSnapshotCount on which the window shrinks runs the drop loop (skip-edge rule); writer, reader and dropper of the per-epoch lists use one structurally identified fixed-width encoder. M: Snapshot reads slot (current − diff + count) % count and faults only for diff outside 0 … count−1; NewEpoch advances the ring index by one modulo count. R6 ring-move: a single resize moves and frees exactly the slots of the in-place algorithm — grow: slot t := slot t−(new−old) for t = new−1 … current+1+(new−old) downwards, slots current+1 … min(current+1+(new−old), old)−1 freed; shrink: slot t := slot t+(old−new) for t = current+1 … new−1 (current < new) or slot t := slot t+(current−new+1) for t = 0 … new−1 with current := new−1 (current ≥ new), slots new … old−1 freed — compared as canonical linear terms under the branch facts and the order axioms of the integers. R7: no iteration of a move loop goes round its Put (every target slot is written). R10: a fixed-width key encoder is total (no fault for any number).",
+			"D3 Snapshot establishes 0 ≤ diff < count before indexing the ring; ListNodesEpoch scans 'p'‖BE4(epoch) with the same fixed-width encoder that NewEpoch and dropNetmap use. D4 every normal path of UpdateSnapshotCount on which the window shrinks runs the drop loop (skip-edge rule); writer, reader and dropper of the per-epoch lists use one structurally identified fixed-width encoder. M: Snapshot reads slot (current − diff + count) % count and faults only for diff outside 0 … count−1; NewEpoch advances the ring index by one modulo count. R6 ring-move: a single resize moves and frees exactly the slots of the in-place algorithm — grow: slot t := slot t−(new−old) for t = new−1 … current+1+(new−old) downwards, slots current+1 … min(current+1+(new−old), old)−1 freed; shrink: slot t := slot t+(old−new) for t = current+1 … new−1 (current < new) or slot t := slot t+(current−new+1) for t = 0 … new−1 with current := new−1 (current ≥ new), slots new … old−1 freed — compared as canonical linear terms under the branch facts and the order axioms of the integers. R7: no iteration of a move loop goes round its Put (every target slot is written). R10: a fixed-width key encoder is total (no fault for any number). R13 catching-frame: no function with a deferred recover that a method of the property's contracts can reach lies outside the who-may-catch table (container.deleteNNSRecords).",
 		NotCovered: "what the ring holds after sequences of resizes and ticks (modular positions over histories): a relation between run-time integers over time, not decidable by this family; the per-call slot sets of a single resize are decided (ring-move).",
 		Run:        runC08,
 	})
